@@ -332,7 +332,7 @@ def asarray(a, dtype=None):
 array = asarray
 
 
-def sum_(a):
+def sum_(a, axis=None, dtype=None):
     if isinstance(a, Arr):
         a = a.v
     total = 0
@@ -542,7 +542,7 @@ def _items(a):
     return [a]
 
 
-def cumsum(a):
+def cumsum(a, axis=None, dtype=None, out=None):
     out, t = [], None
     for x in _items(a):
         t = x if t is None else t + x
@@ -550,14 +550,14 @@ def cumsum(a):
     return Arr(out, asarray(list(_items(a))).dtype if len(out) else float)
 
 
-def prod(a):
+def prod(a, axis=None, dtype=None):
     t = 1.0
     for x in _items(a):
         t = t * x
     return t
 
 
-def mean(a):
+def mean(a, axis=None, dtype=None):
     xs = _items(a)
     return _div(sum_(xs), len(xs))
 
@@ -575,11 +575,11 @@ def _pick(xs, better):
     return b
 
 
-def argmax(a):
+def argmax(a, axis=None):
     return _pick(_items(a), lambda x, y: x > y)
 
 
-def argmin(a):
+def argmin(a, axis=None):
     return _pick(_items(a), lambda x, y: x < y)
 
 
@@ -704,7 +704,7 @@ def allclose(a, b, rtol=1e-05, atol=1e-08):
     return core.And(*[isclose(x, y, rtol, atol) for x, y in zip(xs, ys)]) if xs else True
 
 
-def searchsorted(a, v, side="left"):
+def searchsorted(a, v, side="left", sorter=None):
     xs = _items(a)
     for k, x in enumerate(xs):
         if (v <= x) if side == "left" else (v < x):
